@@ -23,6 +23,7 @@ from .values import OutOfReach
 from . import solve, native
 
 ROOT = os.path.dirname(os.path.dirname(os.path.abspath(__file__)))
+OUT_ROOT = os.environ.get("VERIF_OUT") or ROOT
 Z3_TIMEOUT = 10.0
 FP_TIMEOUT = 240.0
 
@@ -348,7 +349,7 @@ class PropertyRun:
         for f in findings:
             if f.hit:
                 lines.append(f"KNOWN-FINDING: property={pid} {f.text}")
-        rdir = os.path.join(ROOT, "replays", pid)
+        rdir = os.path.join(OUT_ROOT, "replays", pid)
         by_key: Dict[str, list] = {}
         for rec in new_violations:
             by_key.setdefault(rec["key"], []).append(rec)
@@ -406,8 +407,9 @@ class PropertyRun:
         ev = {"property_id": pid, "tier": self.tier, "seed": self.seed, "level": level, "coverage": cov,
               "assumptions": sorted(set(self.assumptions + meta.get("assumptions", []))),
               "wall_s": round(time.time() - t_start, 2), "violations": len(new_violations)}
-        os.makedirs(os.path.join(ROOT, "evidence"), exist_ok=True)
-        with open(os.path.join(ROOT, "evidence", f"{pid}.json"), "w") as fh:
+        # VERIF_OUT: runs against a scratch copy of the repository (seeded changes) write their evidence and replays elsewhere
+        os.makedirs(os.path.join(OUT_ROOT, "evidence"), exist_ok=True)
+        with open(os.path.join(OUT_ROOT, "evidence", f"{pid}.json"), "w") as fh:
             json.dump(ev, fh, indent=1, default=repr)
         print(f"[{pid}] tier={self.tier} functions={len(self.fn_info)} obligations={len(proof_vcs)} discharged={discharged} "
               f"lemmas={len(self.lemma_names)} bounded_evals={evaluations} wall={ev['wall_s']}s")
@@ -436,7 +438,7 @@ class PropertyRun:
 
 def run_property(pid: str, tier: str, seed: int, only=None) -> int:
     t0 = time.time()
-    rdir = os.path.join(ROOT, "replays", pid)
+    rdir = os.path.join(OUT_ROOT, "replays", pid)
     if os.path.isdir(rdir):
         for f in os.listdir(rdir):
             try:
